@@ -558,7 +558,7 @@ func msgBytes(m *gpbft.GMessage) []byte {
 }
 
 func runValidator(o *out, r *rng, thorough bool, pid string) {
-	o.Rule = "histories of validation calls on ONE long-lived real cachingValidator (accessor: own progress function, small caches so that eviction happens) vs a FRESH validator per call: valid messages of every step/round built with the production MessageBuilder, each with 0-2 field-level corruptions or recombinations (26 kinds: sender, instance, round, step, value incl. invalid chains, supplemental data, signature over another payload/network, ticket, justification shape/round/instance/value/signers at the 2/3 boundary/out of range/zero power/aggregate), replays of valid twins before and after their forged variants; one-shot, partial, and two-stage (strip with production ToPartialGMessage, announced key matching/zero/mismatching/other, completion with the original/another/an invalid chain through the production inferJustificationVoteValue); every verdict is compared with the Validator.v model inside Coq; non-trivial = history contains accepted and rejected calls"
+	o.Rule = "histories of validation calls on ONE long-lived real cachingValidator (accessor: own progress function, small caches so that eviction happens) vs a FRESH validator per call: valid messages of every step/round built with the production MessageBuilder, each with 0-2 field-level corruptions or recombinations (26 kinds: sender, instance, round, step, value incl. invalid chains, supplemental data, signature over another payload/network, ticket, justification shape/round/instance/value/signers at the 2/3 boundary/out of range/zero power/aggregate), replays of valid twins before and after their forged variants; one-shot, partial, and two-stage (strip with production ToPartialGMessage, announced key matching/zero/mismatching/other, completion with the original/another/an invalid chain through the production inferJustificationVoteValue); every verdict is compared with the Validator.v model inside Coq; non-trivial = history contains accepted and rejected calls; the two-stage path is also completed with the EMPTY chain; validations whose context is cancelled from inside the signature verifier (a valid message must not be branded invalid, and is accepted afterwards); random histories on the real caching.GroupedSet (capacities 1..3) compared with Gpbft/CacheModel.v"
 	nh := 90
 	if thorough {
 		nh = 600
